@@ -172,8 +172,9 @@ func c04ReadNextBlock(fs *Facts, f *File) {
 		if c == "n<BlockHeaderSize" && c04RetMentions(f, is, "io.EOF") {
 			short = true
 		}
-		if mk != nil && is.Pos() < mk.Pos() && strings.Contains(c, "blockHeader.CompressedSize") && strings.Contains(c, ">") &&
-			(strings.Contains(c, "remaining") || strings.Contains(c, "Size()")) && len(is.Body.List) > 0 {
+		be, isCmp := is.Cond.(*ast.BinaryExpr)
+		if mk != nil && isCmp && be.Op == token.GTR && is.Pos() < mk.Pos() && strings.Contains(f.Str(be.X), "blockHeader.CompressedSize") &&
+			(strings.Contains(f.Str(be.Y), "remaining") || strings.Contains(f.Str(be.Y), "Size()")) && len(is.Body.List) > 0 {
 			// every path of the body must return
 			if _, ok := is.Body.List[len(is.Body.List)-1].(*ast.ReturnStmt); ok {
 				bound = true
